@@ -468,12 +468,49 @@ def _mk_default(name):
     return ob
 
 
+def _mk_mutated(name):
+    sp = SPECS[name]
+
+    @obligation("C12", f"{name}.hash-after-setters", functions=[f"{name}.__eq__", f"{name}.__hash__"],
+                bounds="an instance is hashed and compared (so that anything memoised exists), then every attribute with a public property "
+                       "setter is re-assigned (in alphabetical or reverse order, hashing after every assignment) to the values of a second instance built from other attribute values; if the two then compare "
+                       "equal their hashes agree")
+    def ob(V):
+        warnings.filterwarnings("ignore")
+        dn = discrete(sp)
+        vary = dn[V.choice("varied_discrete_attribute", len(dn))] if dn else None
+        x, y = sp["build"](values(V, sp, "a", None), False), sp["build"](values(V, sp, "b", vary), False)
+        try:
+            hash_of(V, x), bool(x == x), bool(x == y)
+        except TypeError:
+            return
+        assigned = []
+        names = [n for n in sorted(dir(type(x))) if not n.startswith("_") and isinstance(getattr(type(x), n, None), property)
+                 and getattr(type(x), n).fset is not None]
+        if len(names) > 1 and V.choice("setters_in_reverse_order", 2):
+            names.reverse()
+        for n in names:
+            try:
+                setattr(x, n, copy.deepcopy(getattr(y, n)))
+                assigned.append(n)
+                hash_of(V, x)  # hashed again after every assignment: a memo refreshed by one setter and missed by the next goes stale
+            except Exception:  # noqa: BLE001 - a setter may reject re-assignment (ids are immutable); then the instances stay unequal
+                pass
+        if assigned and bool(x == y) and bool(y == x):
+            V.reach("re-assigned instance equals the second instance")
+            V.prove("equal after re-assignment through the setters => equal hashes (" + ", ".join(assigned) + ")", hash_equal(V, hash_of(V, x), hash_of(V, y)))
+
+    return ob
+
+
 for _n, _sp in SPECS.items():
     _mk_same(_n)
     for _a in _sp["attrs"]:
         _mk_diff(_n, _a)
     if _sp["default"] is not None:
         _mk_default(_n)
+    if not _n.endswith("State"):  # the state dataclasses have plain fields, no property setters
+        _mk_mutated(_n)
 
 
 MUTANTS = [
